@@ -23,7 +23,11 @@ FRAMES = {
     "CRLF": b"1;255;3;0;11;sk\r\n",
     "PSA": b"1;255;3;0;32;500\n",
     "RAT": b"1;0;2;0;47;\n",
+    # lines longer than one 120-byte TCP read: a long sketch name, and line noise glued to a frame
+    "LONGSK": b"1;255;3;0;11;" + b"long sketch name " * 9 + b"\n",
+    "NOISEPA": b"\x00\xf8" * 65 + b"8;255;0;0;17;2.2\n",
 }
+LONG = ("LONGSK", "NOISEPA")
 TAILS = [b"", b"1;255;3;0;6", b"\xc3"]
 
 
@@ -157,7 +161,10 @@ def run(tier):
     cases = []
     for a in names:
         for tail in TAILS:
-            cases.append(((a,), tail, tier, True))
+            cases.append(((a,), tail, tier, a not in LONG or tier == "thorough"))
+    cases.append((("PA", "LONGSK", "CFG"), b"", tier, False))
+    cases.append((("NOISEPA", "LONGSK"), b"", tier, False))
+    names = [n for n in names if n not in LONG]
     for a, b in itertools.product(names, repeat=2):
         cases.append(((a, b), b"", tier, tier == "thorough" or (a, b) in (("SU", "CFG"), ("SAe", "CRLF"), ("PA", "CA0"))))
     triples = list(itertools.product(names, repeat=3))
